@@ -12,7 +12,7 @@ PID = 'C14'
 LEVEL = 'exploration'
 RULE = ('one case = one history of batches through one WorstCaseEvaluator or GradientEvaluator: 1-5 generated batches of 1-6 fresh '
         'designs (optionally re-submitting an earlier design) on a batch algorithm, or the batch sequence of one NSGA-II / '
-        'eps-MOEA run (N 2-8, G 1-4) constructed with that evaluator type; n 1-4, 1-2 user objectives, per-parameter tolerances, '
+        'eps-MOEA run (N 2-8, G 1-4) constructed with that evaluator type, or an OMOPSO / SMPSO run whose evaluator attribute was replaced; n 1-4, 1-2 user objectives, per-parameter tolerances, '
         'serial or 2-3 simulated workers.  After every batch: neighbour set, neighbour costs, sensitivity sum, cost-vector '
         'length, gradient quotient and the objective-call budget of the batch, for the new designs AND for all designs of '
         'earlier batches.  Non-trivial = at least two batches went through the evaluator; distinct = hash of '
@@ -210,7 +210,7 @@ def _batch(D):
 
 def _run(D):
     kind = ('worst', 'gradient')[D.weighted('cfg', 'evaluator', (3, 2))]
-    info = runfam.setup(D, PID, algos=('nsga2', 'epsmoea'), fails=('none',), fail_weights=(1,), p_exts=(0.0,), p_ext_weights=(1,),
+    info = runfam.setup(D, PID, algos=('nsga2', 'epsmoea', 'omopso', 'smpso'), fails=('none',), fail_weights=(1,), p_exts=(0.0,), p_ext_weights=(1,),
                         evaluator=kind, with_tol=True, precision=0, max_N=7, max_G=4, n=1 + D.dec('cfg', 'n', 4),
                         m=1 + D.dec('cfg', 'm', 2))
     ctx, w, alg = info.ctx, info.w, info.alg
